@@ -291,10 +291,12 @@ public:
         requires(detail::is_transparent_v<key_compare>)
     [[nodiscard]] constexpr auto find(K const& x) -> iterator
     {
-        return find_if(begin(), end(), [&x](auto const& val) {
-            auto comp = key_compare();
-            return comp(val, x);
-        });
+        auto comp     = key_compare();
+        auto const it = etl::lower_bound(begin(), end(), x, comp);
+        if (it == end() or comp(x, *it)) {
+            return end();
+        }
+        return it;
     }
 
     /// \brief Finds an element with key that compares equivalent to the value
@@ -303,10 +305,12 @@ public:
         requires(detail::is_transparent_v<key_compare>)
     [[nodiscard]] constexpr auto find(K const& x) const -> const_iterator
     {
-        return find_if(cbegin(), cend(), [&x](auto const& val) {
-            auto comp = key_compare();
-            return comp(val, x);
-        });
+        auto comp     = key_compare();
+        auto const it = etl::lower_bound(cbegin(), cend(), x, comp);
+        if (it == cend() or comp(x, *it)) {
+            return cend();
+        }
+        return it;
     }
 
     /// \brief Checks if there is an element with key equivalent to key in the
